@@ -19,25 +19,45 @@ Angles == {<<s, 0, 0>> : s \in Signs} \cup {<<s, -1, 0>> : s \in Signs}
 PathAng == IF Quick THEN {<<1, 0, 0>>, <<-1, -1, 0>>, <<-1, 3, -1>>}
            ELSE {<<1, 0, 0>>, <<-1, -1, 0>>, <<1, 1, 0>>, <<-1, 3, -30>>, <<1, 5, 30>>, <<1, 1, -1000>>}
 
+\* form: 0 (tan, 1); 1 (s mm, 2^-e); 2 the special forms of the fixed points: the pole as (+-inf, 1), the equator as (+-0, 4)
+\* cm: 0 AuxLatitude(a, f); 1 AuxLatitude::axes(a, b) - the lattice ellipsoids have an exactly representable b = a P 2^-k
 VecCv(C) ==
-  \E fi \in 0..(NLat - 1), a \in Nodes, b \in Nodes, m \in {0, 1}, z \in Angles, form \in {0, 1} :
+  \E fi \in 0..(NLat - 1), a \in Nodes, b \in Nodes, m \in {0, 1}, z \in Angles, form \in {0, 1, 2}, cm \in {0, 1} :
     /\ (fi * 36 + a * 6 + b) % NChunks = C
     /\ (form = 1 => z[2] = 3 /\ z[3] >= -30 /\ z[3] <= 30)
-    /\ v' = <<"cv", fi, a, b, m, z[1], z[2], z[3], form>>
+    /\ (form = 2 => ~Generic(z))
+    /\ (cm = 1 => form = 0 /\ (~Generic(z) \/ z[3] \in {-30, 0}))
+    /\ v' = <<"cv", fi, a, b, m, z[1], z[2], z[3], form, cm>>
 VecPath(C) ==
   \E fi \in 0..(NLat - 1), a \in Nodes, b \in Nodes, c \in Nodes, m \in {0, 1}, z \in PathAng :
     /\ (fi * 216 + a * 36 + b * 6 + c) % NChunks = C
     /\ v' = <<"path", fi, a, b, c, m, z[1], z[2], z[3]>>
 
 Args == IF Quick THEN ArgFew ELSE ArgClasses
+\* cm: the way the EllipticFunction object gets its parameters (0..3, see InspOK); every mode for the complete integrals, one
+\* mode per vector (spread over the lattice) for the others
 VecEll(C) ==
-  \/ C = 0 /\ \E kp \in ParamClasses, ap \in ParamClasses : v' = <<"ec", kp[1], kp[2], ap[1], ap[2]>>
+  \/ C < 4 /\ \E kp \in ParamClasses, ap \in ParamClasses : v' = <<"ec", kp[1], kp[2], ap[1], ap[2], C>>
   \/ \E kp \in ParamClasses, ap \in ParamClasses, x \in Args, s \in Signs :
        /\ (kp[1] + 7 * ap[1] + 3 * x[1]) % NChunks = C
-       /\ v' = <<"ei", kp[1], kp[2], ap[1], ap[2], s * x[1], x[2]>>
+       /\ v' = <<"ei", kp[1], kp[2], ap[1], ap[2], s * x[1], x[2], (kp[1] + ap[1] + x[1] + BitLen(x[1])) % 4>>
   \/ \E kp \in ParamClasses, x \in Args, s \in Signs :
        /\ (kp[1] + 3 * x[1]) % NChunks = C
-       /\ v' = <<"ej", kp[1], kp[2], 1, 0, s * x[1], x[2]>>
+       /\ v' = <<"ej", kp[1], kp[2], 1, 0, s * x[1], x[2], (kp[1] + x[1] + BitLen(x[1])) % 4>>
+
+\* the AuxAngle class on small integer directions (y, x) 2^j (j = 99: the non-zero component is infinite), and the singletons
+Small == -2..2
+AxisDirs == {<<sv, 0>> : sv \in {-3, -1, 1, 3}} \cup {<<0, sv>> : sv \in {-3, -1, 1, 3}}
+VecAng(C) ==
+  \/ C = 0 /\ \E d \in AxisDirs, j \in {-2, 0, 3, 99} : v' = <<"angl", 0, d[1], d[2], j, 0, 0, 0>>
+  \/ C = 1 /\ \E y1 \in {-3, 1}, x1 \in {-1, 2}, j \in {-2, 0, 3}, y2 \in {-1, 1}, x2 \in {-1, 1} : v' = <<"angl", 1, y1, x1, j, y2, x2, 0>>
+  \/ \E y1 \in Small, x1 \in Small, y2 \in Small, x2 \in Small, j1 \in {0, 3}, j2 \in {0, -2} :
+       /\ (y1 + 5 * x1 + 11 * y2 + 17 * x2 + 100) % NChunks = C
+       /\ (y1 # 0 \/ x1 # 0) /\ (y2 # 0 \/ x2 # 0)
+       /\ v' = <<"angl", 2, y1, x1, j1, y2, x2, j2>>
+  \/ C = 2 /\ \E d \in AxisDirs, j \in {-2, 0, 3} : v' = <<"angl", 3, d[1], d[2], j, 0, 0, 0>>
+  \/ C = 3 /\ \E k \in Small : v' = <<"angl", 4, k, 0, 0, 0, 0, 0>>
+  \/ C = 4 /\ \E which \in {0, 1} : v' = <<"sing", which>>
 
 CA == IF Quick THEN CarlsonFew ELSE CarlsonArgs
 One == <<1, 0>>
@@ -54,7 +74,7 @@ Next ==
   \/ /\ v[1] = "chunk"
      /\ CASE Part = "cv" -> VecCv(v[2])
           [] Part = "path" -> VecPath(v[2])
-          [] Part = "ell" -> VecEll(v[2]) \/ VecRc(v[2])
+          [] Part = "ell" -> VecEll(v[2]) \/ VecRc(v[2]) \/ VecAng(v[2])
 
 (* ------------------------------ model invariants ------------------------- *)
 \* the chart model on the exact sub-graph PHI/BETA/THETA: inverse pairs, oddness, fixed points, the sphere,
@@ -76,7 +96,16 @@ GraphInv ==
        LET fi == v[2]  a == v[3]  b == v[4]  c == v[5]  z == <<v[7], v[8], v[9]>> IN
        (a <= 2 /\ b <= 2 /\ c <= 2) => Conv3x(fi, b, c, Conv3(fi, a, b, z)) = Conv3(fi, a, c, z)
 EllInv ==
-  v[1] \in {"ec", "ei", "ej"} => ExactComplement(<<v[2], v[3]>>) /\ ExactComplement(<<v[4], v[5]>>)
+  /\ v[1] \in {"ec", "ei", "ej"} => ExactComplement(<<v[2], v[3]>>) /\ ExactComplement(<<v[4], v[5]>>) /\ v[Len(v)] \in 0..3
+  \* the angle-addition model is the multiplication of unit complex numbers: commutative, norm-multiplicative, (0, 1) is the
+  \* identity, and adding the reflected angle (-y, x) gives the positive x axis
+  /\ (v[1] = "angl" /\ v[2] = 2) =>
+       LET y1 == v[3]  x1 == v[4]  y2 == v[6]  x2 == v[7]
+           ey == AddY(y1, x1, y2, x2)  ex == AddX(y1, x1, y2, x2) IN
+       /\ ey = AddY(y2, x2, y1, x1) /\ ex = AddX(y2, x2, y1, x1)
+       /\ ey * ey + ex * ex = (y1 * y1 + x1 * x1) * (y2 * y2 + x2 * x2)
+       /\ AddY(y1, x1, 0, 1) = y1 /\ AddX(y1, x1, 0, 1) = x1
+       /\ AddY(y1, x1, -y1, x1) = 0 /\ AddX(y1, x1, -y1, x1) > 0
 RcInv ==
   v[1] = "rc" =>
     LET fn == v[2]  x == <<v[3], v[4]>>  y == <<v[5], v[6]>>  z == <<v[7], v[8]>>  p == <<v[9], v[10]>> IN
